@@ -40,6 +40,25 @@ def model_value(model, v):
     raise ValueError(type(v).__name__)
 
 
+def mentions_prestate(v):
+    "does a symbolic value depend on an arbitrary pre-state / uninitialised value (pre*, garb* constants)?"
+    seen = set()
+
+    def walk(t):
+        if t.get_id() in seen:
+            return False
+        seen.add(t.get_id())
+        if z3.is_const(t) and t.decl().kind() == z3.Z3_OP_UNINTERPRETED:
+            n = t.decl().name()
+            return n.startswith("pre") or n.startswith("garb")
+        return any(walk(c) for c in t.children())
+    if isinstance(v, Num):
+        return walk(v.t)
+    if isinstance(v, (CollV, RSeq)):
+        return any(walk(g) or mentions_prestate(x) for g, x in v.slots)
+    return False
+
+
 def predict_cpp(enc: Encoded, model):
     "What the symbolic executor says the C++ does on the model's event."
     fault = None
@@ -50,7 +69,8 @@ def predict_cpp(enc: Encoded, model):
     rows = []
     for g, t, cols in enc.exec.rows:
         if z3.is_true(model.eval(g, model_completion=True)):
-            rows.append((t, {k: model_value(model, v) for k, v in cols.items()}))
+            # a column that reads stale / uninitialised storage has no predictable value: marked None
+            rows.append((t, {k: (None if mentions_prestate(v) else model_value(model, v)) for k, v in cols.items()}))
     return {"rows": rows, "fault": fault}
 
 
@@ -162,7 +182,7 @@ def replay_model(enc: Encoded, model, workdir: Path, patches=()):
         enc_ok, enc_text = False, f"fault prediction {pred['fault']} vs real {cpp['fault']}"
     elif pred["fault"] is None:
         if len(pred["rows"]) != len(cpp["rows"]) or any(
-                pt != ct or set(pc) != set(cc) or any(not values_close(pc[k], cc[k], 1e-6, 1e-6) for k in pc)
+                pt != ct or set(pc) != set(cc) or any(pc[k] is not None and not values_close(pc[k], cc[k], 1e-6, 1e-6) for k in pc)
                 for (pt, pc), (ct, cc) in zip(pred["rows"], cpp["rows"])):
             enc_ok, enc_text = False, f"row prediction {pred['rows']} vs real {cpp['rows']}"
     # symbolic reference vs concrete reference
